@@ -152,3 +152,61 @@ __CPROVER_ensures(!REFUSED(self, N0) ==> g_emplace_fronts == 1) /*@ C14 "the new
     dropped=['file names, date suffixes and the rename chain over the deque (one stub: NOT covered)', 'std::filesystem, flush/fsync internals'],
     trusted=['_get_file_size reports the size on disk after flush+fsync'], min_obligations=30)
 UNITS.append(rotate_files)
+
+# ------------------------------------------------------------------------------------------ _calculate_initial_rotation_tp
+INIT_PRELUDE = r'''
+#include <time.h>
+typedef uint8_t RotationFrequency; enum { RF_Disabled, RF_Daily, RF_Hourly, RF_Minutely };
+typedef uint8_t Timezone; enum { TZ_LocalTime, TZ_GmtTime };
+typedef struct ICfg { RotationFrequency freq; Timezone tz; uint32_t daily_h, daily_m; } ICfg;
+static inline RotationFrequency ICFG_rotation_frequency(ICfg const* c) { return c->freq; }
+static inline Timezone ICFG_timezone(ICfg const* c) { return c->tz; }
+/* ghosts: g_now = the start instant in whole seconds; g_day_base = the instant of 00:00:00 of the civil day that contains it
+   in the sink's zone.  TRUSTED libc model (gmtime_r/localtime_r, timegm/mktime), AXIOM: the zone offset is constant from
+   g_day_base for the following 48 hours, so breaking down and re-assembling are linear in hour/minute/second and an
+   out-of-range field (tm_min == 60, tm_hour == 24) carries.  False on days with a DST switch (listed as assumption). */
+time_t g_now, g_day_base; uint64_t g_ret_s, g_ret_ns;
+/* seconds -> nanoseconds: the multiplication stays on the assumed side (SAT cannot prove equalities between 64-bit products) */
+uint64_t SEC_TO_NS(uint64_t secs) __CPROVER_assigns(g_ret_s, g_ret_ns) __CPROVER_ensures(g_ret_s == secs && RET == secs * 1000000000ULL && g_ret_ns == RET);
+time_t DIV_1E9(time_t x) __CPROVER_requires(x >= 0) __CPROVER_assigns(g_now)
+__CPROVER_ensures(RET >= 0 && RET < (1LL << 33) && RET * 1000000000LL <= x && x - RET * 1000000000LL < 1000000000LL && g_now == RET);
+uint32_t BD_second_of_day(time_t t) __CPROVER_assigns(g_day_base) __CPROVER_requires(t >= 0) __CPROVER_ensures(g_day_base >= -86400 && g_day_base <= t && t - g_day_base < 86400 && RET == (uint32_t)(t - g_day_base));
+static inline void LIBC_breakdown(time_t const* t, struct tm* d) { uint32_t sod = BD_second_of_day(*t); d->tm_hour = (int)(sod / 3600u); d->tm_min = (int)((sod % 3600u) / 60u); d->tm_sec = (int)(sod % 60u); }
+static inline time_t LIBC_assemble(struct tm* d) { return g_day_base + (time_t)d->tm_hour * 3600 + (time_t)d->tm_min * 60 + (time_t)d->tm_sec; }
+#define SOD_NOW ((uint32_t)(g_now - g_day_base))
+#define DAILY_T(c) (g_day_base + (time_t)(c)->daily_h * 3600 + (time_t)(c)->daily_m * 60)
+'''
+initial_tp = dict(
+    name='RS.initial_tp', primary='C15', props={'C15'}, kind='L',
+    desc='RotatingSink::_calculate_initial_rotation_tp: the first rotation point is the next whole minute / whole hour / configured HH:MM strictly after the start instant (libc break-down and re-assembly by a trusted linear model)',
+    structs=[], prelude=INIT_PRELUDE, enforce='RS_initial_tp', replace=['DIV_1E9', 'BD_second_of_day', 'SEC_TO_NS'],
+    funcs=[dict(src=dict(header=H, cls='RotatingSink', name='_calculate_initial_rotation_tp'), src_params=['start_time_ns', 'config'], cfun='RS_initial_tp',
+                sig='uint64_t RS_initial_tp(uint64_t start_time_ns, ICfg const* config_p)', ret_default='0', member_fields=[],
+                methods={'rotation_frequency': 'ICFG_rotation_frequency', 'timezone': 'ICFG_timezone'},
+                pre_rules=[(r'RotatingFileSinkConfig::RotationFrequency::(\w+)', r'RF_\1'), (r'Timezone::(\w+)', r'TZ_\1'),
+                           (r'throw\s*\(\s*QuillError\s*\{.*?\}\s*\)\s*;', 'throw(QuillError{"x"});', '?'),
+                           (r'static_cast<time_t>\(start_time_ns\)\s*/\s*1000000000\b', 'DIV_1E9((time_t)start_time_ns)', '!'),
+                           (r'\btm\s+date\s*;', 'struct tm date;'),
+                           (r'detail::(?:gmtime_rs|localtime_rs)\(&time_now,\s*&date\)', 'LIBC_breakdown(&time_now, &date)'),
+                           (r'(?:detail::timegm|std::mktime)\(&date\)', 'LIBC_assemble(&date)'),
+                           (r'static_cast<decltype\(date\.tm_hour\)>\(config\.daily_rotation_time\(\)\.first\.count\(\)\)', '((int)config_p->daily_h)'),
+                           (r'static_cast<decltype\(date\.tm_min\)>\(config\.daily_rotation_time\(\)\.second\.count\(\)\)', '((int)config_p->daily_m)'),
+                           (r'std::chrono::seconds\{std::chrono::hours\{24\}\}\.count\(\)', '((time_t)86400)'),
+                           (r'std::chrono::nanoseconds\{std::chrono::seconds\{(\w+)\}\}\.count\(\)', r'SEC_TO_NS(\1)'),
+                           (r'\bconfig\b', '(*config_p)')],
+                exceptions=True,
+                contract=r'''
+__CPROVER_requires(__CPROVER_is_fresh(config_p, sizeof(ICfg)) && config_p->freq <= RF_Minutely && config_p->tz <= TZ_GmtTime && config_p->daily_h <= 23 && config_p->daily_m <= 59 && start_time_ns < (1ULL << 62) && g_exc == 0)
+__CPROVER_assigns(g_exc, g_now, g_day_base, g_ret_s, g_ret_ns)
+__CPROVER_ensures(config_p->freq == RF_Disabled ==> g_exc == EXC_STD) /*@ C15 "an invalid frequency is an error" */
+__CPROVER_ensures(config_p->freq != RF_Disabled ==> g_exc == 0)
+__CPROVER_ensures(config_p->freq == RF_Minutely ==> (g_ret_s == (uint64_t)(g_day_base + (time_t)(SOD_NOW / 60u + 1u) * 60) && RET == g_ret_ns)) /*@ C15 "minutely: the first rotation point is the next whole minute after the start instant (also from hh:59, carrying into the hour)" */
+__CPROVER_ensures(config_p->freq == RF_Hourly ==> (g_ret_s == (uint64_t)(g_day_base + (time_t)(SOD_NOW / 3600u + 1u) * 3600) && RET == g_ret_ns)) /*@ C15 "hourly: the first rotation point is the next whole hour after the start instant (also from 23:mm, carrying into the day)" */
+__CPROVER_ensures(config_p->freq == RF_Daily ==> (g_ret_s == (uint64_t)(DAILY_T(config_p) > g_now ? DAILY_T(config_p) : DAILY_T(config_p) + 86400) && RET == g_ret_ns)) /*@ C15 "daily: the first rotation point is the next occurrence of the configured HH:MM strictly after the start instant" */
+''')],
+    harness='  uint64_t t; ICfg* c; RS_initial_tp(t, c);',
+    dropped=['std::chrono types as int64 seconds / nanoseconds', 'struct tm fields other than tm_hour/tm_min/tm_sec (the date fields pass through libc unchanged)', 'class template parameter'],
+    trusted=['libc gmtime_r/localtime_r/timegm/mktime by the linear model LIBC_breakdown/LIBC_assemble (AXIOM: constant zone offset over the 48 h after local midnight; not true on DST-switch days)',
+             '64-bit division by 10^9 by its defining property (DIV_1E9)'],
+    min_obligations=10)
+UNITS.append(initial_tp)
